@@ -583,7 +583,9 @@ fn random_sched(rng: &mut impl Rng, deny: bool) -> Value {
         };
         ops.push(op);
     }
-    json!({"to": to, "ops": ops})
+    // one run in six with a tiny stream budget (inbound streams dropped, outbound "max sub-streams reached")
+    let mcs = if rng.gen_range(0..6) == 0 { rng.gen_range(1..=2) } else { 100 };
+    json!({"to": to, "mcs": mcs, "ops": ops})
 }
 
 pub fn main(a: &vcommon::Args) {
